@@ -163,10 +163,11 @@ def run(chk):
     chk.extra_cov["model_NamesUnique_with_summary_named_publish_or_event"] = (
         "violated (counterexample found by TLC)" if r.violated == "NamesUnique" else "holds on the model")
     r = chk.tlc("J5EntityMC.tla", "J5Entity_clash.cfg", "clash", workers=1, timeout=300)
-    cres = chk.replay(DRIVER, r.cases, "clash", workers=1, timeout="30s")
+    clash = [c for c in r.cases if c["src"]["summaries"]]
+    cres = chk.replay(DRIVER, clash, "clash", workers=1, timeout="30s")
     chk.extra_cov["clash_declarations_real_outcome"] = sorted(
-        "%s -> %s" % (c["src"]["summaries"][0]["name"], (e.get("out") or {}).get("skip") or ("compiled" if e.get("out") else "crash"))
-        for c, e in zip(r.cases, cres))
+        "summary %s -> %s" % (c["src"]["summaries"][0]["name"], (e.get("out") or {}).get("skip") or ("compiled" if e.get("out") else "crash"))
+        for c, e in zip(clash, cres))
     chk.exhaustive = False
     chk.extra_cov["cases_exhaustive_focus"] = n_exh
     chk.extra_cov["cases_simulated"] = len(cases) - n_exh
@@ -211,7 +212,7 @@ def run(chk):
             chk.extra_cov["repository_fixture_traces"] = len(ft)
         else:
             chk.notes.append("repository fixture foo.j5s produced no trace: %s" % json.dumps(fres[0])[:300])
-    lim = 700 if quick else 6000
+    lim = 700 if quick else 4000
     if len(traces) > lim:
         head, rest = traces[:1], traces[1:]
         rng.shuffle(rest)
@@ -230,7 +231,6 @@ def run(chk):
 
 
 def replay(prop, path):
-    import check
     rec = json.load(open(path))
     chk = vcheck.Check(prop, "replay")
     res = chk.replay(rec["driver"], [rec["case"]], "replay", workers=1, timeout="60s")
